@@ -8,6 +8,7 @@ import (
 	"io"
 	"os"
 	"sync"
+	"sync/atomic"
 	"time"
 
 	"github.com/aperturerobotics/bifrost/crypto"
@@ -191,6 +192,10 @@ type watcher struct {
 	ref  directive.Reference
 }
 
+// slowWatch, if non-zero, is how long a watcher's value-added callback takes after it has recorded the value (a
+// consumer that does some work inside the callback)
+var slowWatch atomic.Int64
+
 func (r *rig) watch(dir directive.Directive) (*watcher, error) {
 	w := &watcher{vals: map[uint32]directive.Value{}}
 	_, ref, err := r.tb.Bus.AddDirective(dir, bus.NewCallbackHandler(
@@ -199,6 +204,9 @@ func (r *rig) watch(dir directive.Directive) (*watcher, error) {
 			w.vals[av.GetValueID()] = av.GetValue()
 			w.hist = append(w.hist, av.GetValue())
 			w.mu.Unlock()
+			if d := slowWatch.Load(); d > 0 {
+				time.Sleep(time.Duration(d))
+			}
 		},
 		func(av directive.AttachedValue) {
 			w.mu.Lock()
